@@ -143,6 +143,16 @@ def errSorted : List FieldErr → Bool
 def expectedErrs (pm : List Path) (rules : List Rule) (o : Opts) : List Want :=
   ((sortPaths (pm.filter (isLeafB pm))).take (maxLeaves o)).flatMap (violations rules)
 
+/-- the field errors of a result (`nil` has none) -/
+def fieldsOf : Option Result → List FieldErr
+  | some r => r.fields
+  | none => []
+
+/-- `Truncated` of a result (`nil` is not truncated) -/
+def truncOf : Option Result → Bool
+  | some r => r.truncated
+  | none => false
+
 /-- What the statement demands of a returned error list, given the list `want` of errors that
     ought to be reported:
     * soundness — every reported error is wanted (never an absent field, never a non-violation);
@@ -155,8 +165,8 @@ def expectedErrs (pm : List Path) (rules : List Rule) (o : Opts) : List Want :=
       value that printing the reported value would reveal (where several wanted errors share path
       and code, only what all of them demand is demanded). -/
 def errorsOK (want : List Want) (o : Opts) (singleRule : Bool) (obs : Option Result) : Bool :=
-  let fields := match obs with | some r => r.fields | none => []
-  let trunc := match obs with | some r => r.truncated | none => false
+  let fields := fieldsOf obs
+  let trunc := truncOf obs
   let got := fields.map fun e => (e.path, e.code)
   let wantPC := want.map fun w => (w.path, w.code)
   let missing := wantPC.filter fun w => !got.contains w
@@ -164,7 +174,7 @@ def errorsOK (want : List Want) (o : Opts) (singleRule : Bool) (obs : Option Res
   (missing.isEmpty || (trunc && o.maxErrors > 0 && fields.length ≥ o.maxErrors)) &&
   (!(o.maxErrors > 0 && singleRule) || fields.length ≤ o.maxErrors) &&
   (!trunc || (o.maxErrors > 0 && fields.length ≥ o.maxErrors)) &&
-  (match obs with | some r => !r.fields.isEmpty | none => true) &&
+  (!obs.isSome || !fields.isEmpty) &&
   errSorted fields &&
   fields.all fun e =>
     e.hidden || !(o.redacted.contains e.path ||
